@@ -128,8 +128,8 @@ Qed.
 
 Lemma good_delete_data s n off cnt : Good s -> Good (fst (delete_data s n off cnt)).
 Proof.
-  intros G. unfold delete_data. destruct (two64 <=? off + cnt); [exact G|].
-  destruct (len (data_of s n) <? off + cnt); cbn [fst]; [exact G | apply good_set_str; exact G].
+  intros G. unfold delete_data.
+  destruct (len (data_of s n) <? off); cbn [fst]; [exact G | apply good_set_str; exact G].
 Qed.
 
 Lemma good_replace_data s n k off cnt d : Good s -> Good (fst (replace_data s n k off cnt d)).
